@@ -269,10 +269,86 @@ def run(ctx):
     ctx.clause = ("no address-dependent iteration order reaches the output: loops over pointer-keyed / "
                   "interned_string-keyed unordered containers and pointer-ordered sets only fill associative "
                   "containers or vectors that are sorted afterwards, and sort comparators never order by address")
-    ctx.rules = ["R-UNORD", "R-PTRCMP", "R-TIEBREAK"]
+    ctx.rules = ["R-UNORD", "R-PTRCMP", "R-TIEBREAK", "R-MEMBERINIT"]
     P = ctx.program(None)
     check_unord(ctx, P)
     check_ptrcmp(ctx, P)
     check_tiebreak(ctx, P)
+    check_memberinit(ctx, P)
     ctx.assume("loop bodies that call arbitrary functions with side effects (e.g. add_alias) are not classified; "
-               "nondeterminism from uninitialised memory or from elfutils is not decided")
+               "nondeterminism from elfutils, and from uninitialised memory other than scalar data members (locals, heap "
+               "buffers), is not decided")
+
+
+SCALARS = ("bool", "char", "signed char", "unsigned char", "short", "unsigned short", "int", "unsigned int", "long", "unsigned long",
+           "long long", "unsigned long long", "float", "double", "size_t", "uint64_t", "uint32_t", "int64_t", "int32_t", "uint8_t",
+           "uint16_t", "unsigned", "GElf_Addr", "Dwarf_Off", "Dwarf_Addr")
+
+
+def _scalar(t):
+    if not t or t.get("ref") or t.get("rec"):
+        return False
+    if t.get("ptr") or t.get("enum"):
+        return True
+    c = (t.get("c") or t.get("s") or "").replace("const ", "").replace("volatile ", "").strip()
+    return c in SCALARS
+
+
+def check_memberinit(ctx, P):
+    """R-MEMBERINIT: a scalar (arithmetic, enumeration or pointer) data member that a constructor leaves uninitialised
+    holds whatever the allocator left there; every flag the tools branch on lives in such members (the readers' options, the
+    diff context's switches).  For every user-provided constructor of a class of the project *that is reachable from a tool's main*: each scalar member is covered by a member initialiser (written, or implied by a default member initialiser),
+    or assigned through `this` in the constructor body or in a member function the body calls on `this` (two levels, the
+    project's `initialize()` idiom), or the object is memset."""
+    called = set(P.live())          # reachable from a tool's main
+    n = n_ctor = 0
+    for f in sorted(P.all_funcs(), key=lambda x: (x.file, x.l0, x.sig)):
+        if f.dep or not f.cls or not f.q.startswith("abigail::") or f.body is None:
+            continue
+        cname = f.cls.split("::")[-1]
+        if f.n != cname or f.u not in called:
+            continue
+        rec = P.records.get(f.cls)
+        if not rec or rec.get("tmpl"):
+            continue
+        ru = rec["_unit"]
+        kids = [x for x in f.body.get("c", []) if x is not None]
+        # a delegating constructor initialises through its target
+        if any(x["k"] == "CtorInit" and not x.get("d") and x.get("t") and
+               ((f.unit.type(x["t"]) or {}).get("c") or (f.unit.type(x["t"]) or {}).get("s") or "").split("::")[-1] == cname for x in kids):
+            continue
+        inits = {(f.unit.decl(x.get("d")) or {}).get("n") for x in kids if x["k"] == "CtorInit" and x.get("d")}
+        assigned = set()
+
+        def collect(g, depth=0):
+            for x in g.nodes():
+                if x["k"] in ("BinaryOperator", "CXXOperatorCallExpr", "CompoundAssignOperator") and x.get("op") == "=":
+                    a = call_args(x) if x["k"] == "CXXOperatorCallExpr" else x["c"]
+                    l = strip_casts(a[0])
+                    if l is not None and l["k"] == "MemberExpr" and l.get("c") and l["c"][0] is not None and l["c"][0]["k"] == "CXXThisExpr":
+                        assigned.add((g.decl(l) or {}).get("n"))
+                if x["k"] == "CallExpr" and (g.decl(x) or {}).get("n") in ("memset", "__builtin_memset"):
+                    assigned.add("*")
+                if depth < 2 and x["k"] == "CXXMemberCallExpr":
+                    o = strip_casts(member_call_object(x))
+                    if o is not None and o["k"] == "CXXThisExpr":
+                        h = P.funcs.get((g.decl(x) or {}).get("u"))
+                        if h is not None and not h.dep:
+                            collect(h, depth + 1)
+        collect(f)
+        n_ctor += 1
+        for fld in rec.get("fields", []):
+            if not _scalar(ru.type(fld["t"])):
+                continue
+            n += 1
+            ok = fld["n"] in inits or fld["n"] in assigned or "*" in assigned
+            if ok:
+                continue
+            ctx.analysed(f)
+            ctx.ob("R-MEMBERINIT", "%s%s initialises %s" % (f.cls.replace("abigail::", ""), f.sig[f.sig.index("("):][:50], fld["n"]),
+                   False, f.loc(), "the member `%s` (%s) is neither in the initialiser list nor assigned in the body: what the tools "
+                   "do when they read it depends on the contents of the heap" % (
+                       fld["n"], (ru.type(fld["t"]) or {}).get("c") or (ru.type(fld["t"]) or {}).get("s")))
+    ctx.ob("R-MEMBERINIT", "every scalar member is initialised by every constructor that the program calls", True, "",
+           "%d (constructor, scalar member) pairs in %d called constructors" % (n, n_ctor))
+    ctx.floor("R-MEMBERINIT", "(constructor, scalar member) pairs", n, 250)
